@@ -1,7 +1,7 @@
 #!/bin/bash
 # Re-run every kept seeded change against the check of the property it breaks: apply to /repo's working tree, ./check quick, revert.
 # Prints one line per change; exit 0 iff every change is caught (check exit 1) and the clean tree passes afterwards.
-V="$(cd "$(dirname "$0")/.." && pwd)"; REPO="${VERIF_REPO:-/repo}"; export VERIF_REPO="$REPO"; cd $V; miss=0; T=$(mktemp -d /tmp/urisim_mut.XXXXXX)
+V="$(cd "$(dirname "$0")/.." && pwd)"; REPO="${VERIF_REPO:-/repo}"; export VERIF_REPO="$REPO"; cd $V; miss=0; mkdir -p $V/build; T=$(mktemp -d $V/build/mut.XXXXXX)
 for d in seeded/*/; do
   id=$(basename $d); p=${id%%-*}
   cw=$(sed -n 's/.*"check_with": *"\(C[0-9]*\)".*/\1/p' $d/meta.json 2>/dev/null | head -1); [ -n "$cw" ] && p=$cw   # reported by a sibling check (see meta.json "note")
